@@ -63,9 +63,10 @@ VARIABLES frags,      \* sequence of fragments, the last is the live MANIFEST; a
           mpc, mfile, \* memtable thread: "idle" | "linked" | "installed", and its file
           cpc, cins, couts,   \* compaction: "idle" | "linked"
           removedEver,        \* names some edit removed (for CrossRecreate)
+          vtodo,              \* the verifier's logged intent: trash copies still to unlink
           vid, edits, crashes
 
-vars == <<frags, sst, trash, logs, written, up, cur, held, cnt, todo, mpc, mfile, cpc, cins, couts, removedEver, vid, edits, crashes>>
+vars == <<frags, sst, trash, logs, written, up, cur, held, cnt, todo, mpc, mfile, cpc, cins, couts, removedEver, vtodo, vid, edits, crashes>>
 
 (* ------------------------------- the manifest ----------------------------- *)
 Apply(s, e) == (s \ e.rm) \cup e.add          \* mani applies an edit's removes, then its adds
@@ -105,38 +106,38 @@ Init == /\ frags = << <<[rm |-> {}, add |-> {}]>> >>
         /\ sst = {} /\ trash = {} /\ logs = {} /\ written = {} /\ up = TRUE
         /\ cur = [id |-> 0, files |-> {}] /\ held = {} /\ cnt = Zero /\ todo = {}
         /\ mpc = "idle" /\ mfile = "" /\ cpc = "idle" /\ cins = {} /\ couts = {}
-        /\ removedEver = {} /\ vid = 0 /\ edits = 0 /\ crashes = 0
+        /\ removedEver = {} /\ vtodo = {} /\ vid = 0 /\ edits = 0 /\ crashes = 0
 
 (* --------------------------------- clients ------------------------------- *)
 WriteLog(f) == /\ up /\ f \in LogFiles \ written
                /\ logs' = logs \cup {f} /\ written' = written \cup {f}
-               /\ UNCHANGED <<frags, sst, trash, up, cur, held, cnt, todo, mpc, mfile, cpc, cins, couts, removedEver, vid, edits, crashes>>
+               /\ UNCHANGED <<frags, sst, trash, up, cur, held, cnt, todo, mpc, mfile, cpc, cins, couts, removedEver, vtodo, vid, edits, crashes>>
 Hold == /\ up /\ cur \notin held /\ Cardinality(held) < MaxHeld
         /\ held' = held \cup {cur}
-        /\ UNCHANGED <<frags, sst, trash, logs, written, up, cur, cnt, todo, mpc, mfile, cpc, cins, couts, removedEver, vid, edits, crashes>>
+        /\ UNCHANGED <<frags, sst, trash, logs, written, up, cur, cnt, todo, mpc, mfile, cpc, cins, couts, removedEver, vtodo, vid, edits, crashes>>
 \* VersionRef::drop -> explicit_unref: nothing if the tree still holds this version, else count its files down
 Drop(v) == /\ up /\ v \in held /\ held' = held \ {v}
            /\ IF v.id = cur.id THEN UNCHANGED <<cnt, todo>>
               ELSE cnt' = Down1(cnt, v.files) /\ todo' = todo \cup Zeroed(cnt, v.files)
-           /\ UNCHANGED <<frags, sst, trash, logs, written, up, cur, mpc, mfile, cpc, cins, couts, removedEver, vid, edits, crashes>>
+           /\ UNCHANGED <<frags, sst, trash, logs, written, up, cur, mpc, mfile, cpc, cins, couts, removedEver, vtodo, vid, edits, crashes>>
 \* the rename of explicit_unref, some time after the count (its result is ignored)
 Rename(f) == /\ up /\ f \in todo /\ todo' = todo \ {f}
              /\ IF f \in sst THEN sst' = sst \ {f} /\ trash' = trash \cup {f} ELSE UNCHANGED <<sst, trash>>
-             /\ UNCHANGED <<frags, logs, written, up, cur, held, cnt, mpc, mfile, cpc, cins, couts, removedEver, vid, edits, crashes>>
+             /\ UNCHANGED <<frags, logs, written, up, cur, held, cnt, mpc, mfile, cpc, cins, couts, removedEver, vtodo, vid, edits, crashes>>
 
 (* ------------------------------ memtable thread --------------------------- *)
 \* _ingest refuses a name that exists in sst/ (duplicate_sst): the model does not go there
 MLink == /\ up /\ mpc = "idle" /\ \E f \in logs : f \notin sst /\ mfile' = f /\ sst' = sst \cup {f}
          /\ mpc' = "linked"
-         /\ UNCHANGED <<frags, trash, logs, written, up, cur, held, cnt, todo, cpc, cins, couts, removedEver, vid, edits, crashes>>
+         /\ UNCHANGED <<frags, trash, logs, written, up, cur, held, cnt, todo, cpc, cins, couts, removedEver, vtodo, vid, edits, crashes>>
 MInstall == /\ up /\ mpc = "linked" /\ edits < MaxEdits
             /\ frags' = AppendEdit(frags, [rm |-> {}, add |-> {mfile}]) /\ edits' = edits + 1
             /\ Install(cur.files \cup {mfile})
             /\ mpc' = "installed"
-            /\ UNCHANGED <<sst, trash, logs, written, up, held, mfile, cpc, cins, couts, removedEver, crashes>>
+            /\ UNCHANGED <<sst, trash, logs, written, up, held, mfile, cpc, cins, couts, removedEver, vtodo, crashes>>
 MTrashLog == /\ up /\ mpc = "installed"
              /\ logs' = logs \ {mfile} /\ mpc' = "idle" /\ mfile' = ""
-             /\ UNCHANGED <<frags, sst, trash, written, up, cur, held, cnt, todo, cpc, cins, couts, removedEver, vid, edits, crashes>>
+             /\ UNCHANGED <<frags, sst, trash, written, up, cur, held, cnt, todo, cpc, cins, couts, removedEver, vtodo, vid, edits, crashes>>
 
 (* -------------------------------- compaction ------------------------------ *)
 OutChoices(ins) == {{}} \cup {{f} : f \in ins}                                                   \* all collected; an input re-created
@@ -147,40 +148,47 @@ CLink == /\ up /\ cpc = "idle" /\ cur.files # {}
               /\ (mpc = "linked" => mfile \notin ins)
               /\ cins' = ins /\ couts' = outs /\ sst' = sst \cup outs      \* AlreadyExists is not an error
          /\ cpc' = "linked"
-         /\ UNCHANGED <<frags, trash, logs, written, up, cur, held, cnt, todo, mpc, mfile, removedEver, vid, edits, crashes>>
+         /\ UNCHANGED <<frags, trash, logs, written, up, cur, held, cnt, todo, mpc, mfile, removedEver, vtodo, vid, edits, crashes>>
 CInstall == /\ up /\ cpc = "linked" /\ edits < MaxEdits
             /\ cins \subseteq cur.files                       \* (a flush may have installed in between: inputs are still there)
             /\ frags' = AppendEdit(frags, [rm |-> cins, add |-> couts]) /\ edits' = edits + 1
             /\ Install((cur.files \ cins) \cup couts)
             /\ removedEver' = removedEver \cup (cins \ couts)
             /\ cpc' = "idle" /\ cins' = {} /\ couts' = {}
-            /\ UNCHANGED <<sst, trash, logs, written, up, held, mpc, mfile, crashes>>
+            /\ UNCHANGED <<sst, trash, logs, written, up, held, mpc, mfile, vtodo, crashes>>
 
 \* Manifest roll-over (inside an apply; modelled between steps): the live file becomes a numbered fragment
 RollOver == /\ up /\ Len(frags) < MaxFrags /\ Len(frags[Len(frags)]) > 1
             /\ frags' = Rolled(frags)
-            /\ UNCHANGED <<sst, trash, logs, written, up, cur, held, cnt, todo, mpc, mfile, cpc, cins, couts, removedEver, vid, edits, crashes>>
+            /\ UNCHANGED <<sst, trash, logs, written, up, cur, held, cnt, todo, mpc, mfile, cpc, cins, couts, removedEver, vtodo, vid, edits, crashes>>
 
 (* --------------------------------- verifier ------------------------------- *)
-\* consumes the oldest numbered fragment: unlinks the trash copies of what it removed unless a later edit mentions
-\* the name again (that copy may be the re-created file's), then the fragment itself.  It never touches sst/.
+\* LsmVerifier::verify, a process of its own (it also runs while the store is down, and its intent survives a crash in
+\* verify/MANIFEST).  It never touches sst/.  It leaves the newest numbered fragment and the live file alone ("pop twice").
+\* For the oldest fragment: what it removed, minus what a later edit mentions again (that trash copy may be the re-created
+\* file's), must all be in trash/ or it backs off; then the intent is logged, the fragment unlinked (VFragment), and the
+\* trash copies unlinked one by one (VUnlink).
 RECURSIVE RemovedBy(_, _)
 RemovedBy(es, i) == IF i > Len(es) THEN {} ELSE es[i].rm \cup RemovedBy(es, i + 1)
 RECURSIVE MentionedIn(_, _)
 MentionedIn(es, i) == IF i > Len(es) THEN {} ELSE es[i].rm \cup es[i].add \cup MentionedIn(es, i + 1)
 RECURSIVE MentionedFrom(_, _)
-MentionedFrom(fs, k) == IF k > Len(fs) THEN {} ELSE MentionedIn(fs[k], 2) \cup MentionedFrom(fs, k + 1)
-Verify == /\ Len(frags) > 1
-          /\ trash' = trash \ (RemovedBy(frags[1], 2) \ MentionedFrom(frags, 2))
-          /\ frags' = Tail(frags)
-          /\ UNCHANGED <<sst, logs, written, up, cur, held, cnt, todo, mpc, mfile, cpc, cins, couts, removedEver, vid, edits, crashes>>
+MentionedFrom(fs, k) == IF k > Len(fs) THEN {} ELSE MentionedIn(fs[k], 1) \cup MentionedFrom(fs, k + 1)
+VFragment == /\ Len(frags) > 2 /\ vtodo = {}
+             /\ LET gone == RemovedBy(frags[1], 2) \ MentionedFrom(frags, 2) IN
+                  /\ gone \subseteq trash                      \* otherwise: backoff
+                  /\ vtodo' = gone
+             /\ frags' = Tail(frags)
+             /\ UNCHANGED <<sst, trash, logs, written, up, cur, held, cnt, todo, mpc, mfile, cpc, cins, couts, removedEver, vtodo, vid, edits, crashes>>
+VUnlink == /\ \E f \in vtodo : vtodo' = vtodo \ {f} /\ trash' = trash \ {f}
+           /\ UNCHANGED <<frags, sst, logs, written, up, cur, held, cnt, todo, mpc, mfile, cpc, cins, couts, removedEver, vtodo, vid, edits, crashes>>
 
 (* ------------------------------ crash and reopen -------------------------- *)
 Crash == /\ up /\ crashes < MaxCrash
          /\ up' = FALSE /\ crashes' = crashes + 1
          /\ held' = {} /\ cnt' = Zero /\ todo' = {}
          /\ mpc' = "idle" /\ mfile' = "" /\ cpc' = "idle" /\ cins' = {} /\ couts' = {}
-         /\ UNCHANGED <<frags, sst, trash, logs, written, cur, removedEver, vid, edits>>
+         /\ UNCHANGED <<frags, sst, trash, logs, written, cur, removedEver, vtodo, vid, edits>>
 
 \* what open does to the durable state, as functions of it (also used by MC_Cleanup to print the expected outcome)
 ReF1 == IF Len(frags) <= MaxFrags THEN Rolled(frags) ELSE frags
@@ -194,11 +202,11 @@ Reopen == /\ ~up
           /\ cur' = [id |-> vid + 1, files |-> ListedIn(ReF2)] /\ vid' = vid + 1
           /\ cnt' = Up1(Zero, ListedIn(ReF2))
           /\ logs' = {} /\ up' = TRUE
-          /\ UNCHANGED <<written, held, todo, mpc, mfile, cpc, cins, couts, removedEver, edits, crashes>>
+          /\ UNCHANGED <<written, held, todo, mpc, mfile, cpc, cins, couts, removedEver, vtodo, edits, crashes>>
 
 Next == \/ \E f \in LogFiles : WriteLog(f)
         \/ Hold \/ (\E v \in held : Drop(v)) \/ (\E f \in Files : Rename(f))
-        \/ MLink \/ MInstall \/ MTrashLog \/ CLink \/ CInstall \/ RollOver \/ Verify \/ Crash \/ Reopen
+        \/ MLink \/ MInstall \/ MTrashLog \/ CLink \/ CInstall \/ RollOver \/ VFragment \/ VUnlink \/ Crash \/ Reopen
 Spec == Init /\ [][Next]_vars
 
 (* -------------------------------- properties ----------------------------- *)
